@@ -496,15 +496,19 @@ def grid_range(facts, res):
     def norm(e):
         return sympy.simplify(sympy.sympify(e).subs(2 ** (h - 1), N).subs(2 ** h, 2 * N))
 
+    Q = sympy.Symbol("q", integer=True, nonnegative=True)     # the abstract cell number floor(x / leaf width) of the position
+
     class Iv:
-        def __init__(self, lo, hi, hi_open=False, integer=False):
+        def __init__(self, lo, hi, hi_open=False, integer=False, q=None, kind=None):
             self.lo, self.hi, self.hi_open, self.integer = norm(lo), norm(hi), hi_open, integer
+            self.q = q          # the value as a function of q (None: not a function of the cell number this analysis follows)
+            self.kind = kind    # "x": the relative position itself; "quot": x / leaf width (real)
 
         def __repr__(self):
             return "[%s, %s%s" % (self.lo, self.hi, ")" if self.hi_open else "]")
 
     def point(e, integer=False):
-        return Iv(e, e, False, integer)
+        return Iv(e, e, False, integer, q=norm(e) if integer else None)
 
     n = 0
     for cls in ("TbfMortonSpaceIndex", "TbfHilbertSpaceIndex"):
@@ -527,6 +531,7 @@ def grid_range(facts, res):
                 return point(sympy.nsimplify(nd["val"]))
             if k == "DeclRefExpr":
                 if nd.get("did") == xdid:
+                    x.kind = "x"
                     return x
                 d = fm.decls.get(nd.get("did"))
                 if d is not None and d.get("k") == "VarDecl" and kids(d) and nd["did"] not in fm.assigned:
@@ -542,7 +547,7 @@ def grid_range(facts, res):
                         hi = v.hi - 1 if v.hi_open else v.hi
                     else:
                         hi = v.hi        # floor(hi) <= hi
-                    return Iv(lo, hi, False, True)
+                    return Iv(lo, hi, False, True, q=Q if v.kind == "quot" else None)
                 return v
             if k in ("ArraySubscriptExpr", "CXXOperatorCallExpr"):
                 t = facts.ntext(nd)
@@ -559,10 +564,10 @@ def grid_range(facts, res):
                 if nm in ("min", "max") and len(args) == 2:
                     a, b = ev(args[0], x, depth + 1), ev(args[1], x, depth + 1)
                     f = sympy.Min if nm == "min" else sympy.Max
-                    return Iv(f(a.lo, b.lo), f(a.hi, b.hi), a.hi_open and b.hi_open, a.integer and b.integer)
+                    return Iv(f(a.lo, b.lo), f(a.hi, b.hi), a.hi_open and b.hi_open, a.integer and b.integer, q=f(a.q, b.q) if a.q is not None and b.q is not None else None)
                 if nm in ("floor",) and len(args) == 1:
                     a = ev(args[0], x, depth + 1)
-                    return Iv(sympy.floor(a.lo) if a.lo != 0 else 0, (a.hi - 1 if a.hi_open else a.hi) if a.hi.is_integer else a.hi, False, True)
+                    return Iv(sympy.floor(a.lo) if a.lo != 0 else 0, (a.hi - 1 if a.hi_open else a.hi) if a.hi.is_integer else a.hi, False, True, q=Q if a.kind == "quot" else None)
                 cands = [g for g in facts.methods_of(cls) if g["name"] == nm and tbf.body(g) is not None and not g.get("inst") and len(g["params"]) == len(args)]
                 if len(cands) == 1:
                     g = cands[0]
@@ -578,11 +583,18 @@ def grid_range(facts, res):
                     return point(2 ** b.lo, True)
                 if op in ("+", "-") and b.lo == b.hi:
                     f = (lambda u: u + b.lo) if op == "+" else (lambda u: u - b.lo)
-                    return Iv(f(a.lo), f(a.hi), a.hi_open, a.integer and b.integer)
+                    return Iv(f(a.lo), f(a.hi), a.hi_open, a.integer and b.integer, q=f(a.q) if a.q is not None and b.integer else None)
                 if op == "/" and b.lo == b.hi and b.lo.is_positive:
-                    return Iv(a.lo / b.lo, a.hi / b.lo, a.hi_open, False)
+                    return Iv(a.lo / b.lo, a.hi / b.lo, a.hi_open, False, kind="quot" if a.kind == "x" and sympy.simplify(b.lo - W / N) == 0 else None)
                 if op == "*" and b.lo == b.hi and b.lo.is_positive:
-                    return Iv(a.lo * b.lo, a.hi * b.lo, a.hi_open, a.integer and b.integer)
+                    return Iv(a.lo * b.lo, a.hi * b.lo, a.hi_open, a.integer and b.integer, q=a.q * b.lo if a.q is not None and b.integer else None,
+                              kind="quot" if a.kind == "x" and sympy.simplify(b.lo - N / W) == 0 else None)
+                if op in ("&", "%") and a.integer and b.integer and b.lo == b.hi:
+                    # an integer reduced onto [0, m): the mask form needs m = mask + 1 to be a power of two, which N = 2^(height-1) and literals 2^k are
+                    m = norm(b.lo + 1) if op == "&" else b.lo
+                    pow2 = m == N or m == 2 * N or (m.is_Integer and m > 0 and (int(m) & (int(m) - 1)) == 0)
+                    if op == "%" or pow2:
+                        return Iv(0, m - 1, False, True, q=sympy.Mod(a.q, m) if a.q is not None else None)
             raise AnalysisBroken("%s: `%s` not understood by the range analysis" % (facts.loc(nd), facts.ntext(nd)[:60]))
 
         def ev_sub(nd, sub, depth):
@@ -657,6 +669,30 @@ def grid_range(facts, res):
             if too_high or too_low:
                 res.violation(R, tbf.rel(facts.path_of(s_)), fn["qname"], "return@%d" % s_["l"][1], s_["l"][1],
                               "for a relative position in %s the returned grid coordinate ranges over %s, outside [0, N-1] (N = 2^(height-1) cells per dimension): a particle inside the closed box is put in a leaf outside the grid" % (xs, iv))
+                continue
+            # the cell CONTAINS the position: as a function of the abstract cell number q = floor(x / leaf width) (q = N exactly on the upper
+            # face, which belongs to the last cell) the returned coordinate is min(q, N-1), for every q the path admits
+            R2 = "C06.6.cell-of-position"
+            if iv.q is None:
+                raise AnalysisBroken("%s: the returned coordinate `%s` is not a function of floor(position / leaf width) this analysis can follow" % (facts.loc(s_), facts.ntext(kids(s_)[0])[:60]))
+            if sympy.simplify(xs.lo) == 0 and sympy.simplify(xs.hi - W) == 0:
+                qr = lambda nv: range(0, nv if xs.hi_open else nv + 1)
+            elif sympy.simplify(xs.lo - W) == 0 and sympy.simplify(xs.hi - W) == 0:
+                qr = lambda nv: range(nv, nv + 1)
+            else:
+                raise AnalysisBroken("%s: path condition %s on the position is not one of [0,W), [0,W], {W}" % (facts.loc(s_), xs))
+            res.instance(R2, "%s return@%d" % (fn["qname"], s_["l"][1]), facts.loc(s_), "coordinate = %s for q = floor(x / leaf width), position in %s" % (iv.q, xs))
+            bad = None
+            for nv in (1, 2, 4, 8, 16):
+                for qv in qr(nv):
+                    got = sympy.simplify(sympy.sympify(iv.q).subs({Q: qv, N: nv, h: sympy.log(nv, 2) + 1}))
+                    if got != min(qv, nv - 1) and bad is None:
+                        bad = (nv, qv, got)
+            if bad:
+                nv, qv, got = bad
+                res.violation(R2, tbf.rel(facts.path_of(s_)), fn["qname"], "cell@%d" % s_["l"][1], s_["l"][1],
+                              "with %d cells per dimension a position %s is given the grid coordinate %s instead of %d: the particle is stored in a leaf that does not contain it (its stored position stays where it was), so expansions are evaluated outside the leaf and, in periodic mode, the +-box-width shift is applied relative to the wrong cell"
+                              % (nv, ("on the upper face of the box (x = box width)" if qv == nv else "with floor(x / leaf width) = %d" % qv), got, min(qv, nv - 1)))
     res.floor(R, n, 2, "returns of getTreeCoordinate")
 
 
